@@ -367,7 +367,10 @@ class Runner:
         # 2. history worlds and file-route worlds
         jobs = [self.hist_job(i, hashes, layouts) for i in range(tier.n_hist)]
         for j in jobs:
-            j.ops = [op for op in j.ops if op.get("pid") is None or op["pid"] in usable]
+            # programs whose reference observation is unusable (they fail to import, mostly siblings)
+            # stay in the histories as PREDECESSORS - a source that cannot be imported is a legitimate
+            # thing to have been checked earlier - but are never compared themselves
+            j.ops = [op for op in j.ops if op.get("pid") is None or op["pid"] in usable or op["op"] == "check"]
         fjobs = []
         for i in range(tier.n_files):
             fjobs += self.files_jobs(i, hashes)
